@@ -673,16 +673,25 @@ func formatTimezone(t time.Time, marker *variableMarker, prefixed bool) (string,
 	return tz, nil
 }
 
+// The hours and minutes of a timezone offset have the same sign.
+// The functions below format their absolute values and add the
+// sign themselves, so that offsets between -00:59 and -00:01
+// (zero hours) are not shown as positive.
+func timezoneSign(h int, m int) string {
+	if h < 0 || m < 0 {
+		return "-"
+	}
+	return "+"
+}
+
 func formatTimezoneShort(h int, m int, layout string) (string, error) {
 
-	tz, err := formatInteger(h, layout)
+	tz, err := formatInteger(abs(h), layout)
 	if err != nil {
 		return "", err
 	}
 
-	if h >= 0 {
-		tz = "+" + tz
-	}
+	tz = timezoneSign(h, m) + tz
 
 	if m != 0 {
 		tz += fmt.Sprintf(":%02d", abs(m))
@@ -693,21 +702,17 @@ func formatTimezoneShort(h int, m int, layout string) (string, error) {
 
 func formatTimezoneLong(h int, m int, layout string) (string, error) {
 
-	tz, err := formatInteger(h*100+m, layout)
+	tz, err := formatInteger(abs(h)*100+abs(m), layout)
 	if err != nil {
 		return "", err
 	}
 
-	if h >= 0 {
-		tz = "+" + tz
-	}
-
-	return tz, nil
+	return timezoneSign(h, m) + tz, nil
 }
 
 func formatTimezoneSplit(h int, layoutH string, m int, layoutM string, separator string) (string, error) {
 
-	hh, err := formatInteger(h, layoutH)
+	hh, err := formatInteger(abs(h), layoutH)
 	if err != nil {
 		return "", err
 	}
@@ -717,13 +722,7 @@ func formatTimezoneSplit(h int, layoutH string, m int, layoutM string, separator
 		return "", err
 	}
 
-	tz := hh + separator + mm
-
-	if h >= 0 {
-		tz = "+" + tz
-	}
-
-	return tz, nil
+	return timezoneSign(h, m) + hh + separator + mm, nil
 }
 
 var calendars = []string{"AD"}
